@@ -360,34 +360,70 @@ Proof.
   rewrite IH. ring.
 Qed.
 
-Lemma planar_wu_eq w u : Exists (fun x => x <> 0) w -> length u = length w ->
-  planar_wu ROps w u = planar_m ROps (dot ROps u w).
+Lemma nmax_1_R s : nmax ROps 1 s = Rmax 1 s.
+Proof.
+  unfold nmax. rops. unfold Rltb. destruct (Rlt_dec 1 s) as [H|H].
+  - symmetry. apply Rmax_right. lra.
+  - symmetry. apply Rmax_left. lra.
+Qed.
+Lemma planar_mk_eq slope t : planar_mk ROps slope t =
+  match slope with None => planar_m ROps t | Some s => planar_m ROps t / Rmax 1 s end.
+Proof. destruct slope as [s|]; [|reflexivity]. unfold planar_mk. change (n_ofZ ROps 1) with 1. now rewrite nmax_1_R. Qed.
+
+Lemma planar_wu_eq slope w u : Exists (fun x => x <> 0) w -> length u = length w ->
+  planar_wu ROps slope w u = planar_mk ROps slope (dot ROps u w).
 Proof.
   intros Hw Hl. unfold planar_wu, planar_act_scale. rewrite sq_norm, !dot_eq. rops.
   rewrite (dot_act_scale _ _ u w Hl). pose proof (sumsq_pos w Hw). field. lra.
 Qed.
 
-(* the constraint as coded: w . u_hat > -1 for EVERY raw w <> 0, u (any dimension) *)
-Lemma planar_invertible w u : Exists (fun x => x <> 0) w -> length u = length w -> -1 < planar_wu ROps w u.
+(* tanh activation (negative_slope = None): w . u_hat > -1 for EVERY raw w <> 0, u (any dimension) *)
+Lemma planar_invertible_tanh w u : Exists (fun x => x <> 0) w -> length u = length w -> -1 < planar_wu ROps None w u.
 Proof. intros Hw Hl. rewrite planar_wu_eq by assumption. apply planar_m_gt. Qed.
 
-Lemma planar_denom_eq s w u : planar_denom ROps s w u = 1 + s * planar_wu ROps w u.
-Proof. unfold planar_denom, planar_wu. rewrite !dot_eq. rops. now rewrite dot_scale. Qed.
+(* leaky relu with ANY slope > 0: w . u_hat > -1/max(1, slope) *)
+Lemma planar_wu_leaky slope w u : Exists (fun x => x <> 0) w -> length u = length w -> 0 < slope ->
+  - 1 / Rmax 1 slope < planar_wu ROps (Some slope) w u.
+Proof.
+  intros Hw Hl Hs. rewrite planar_wu_eq, planar_mk_eq by assumption.
+  pose proof (planar_m_gt (dot ROps u w)) as Hm. pose proof (Rmax_l 1 slope) as Hk.
+  unfold Rdiv. apply Rmult_lt_compat_r; [apply Rinv_0_lt_compat; lra|lra].
+Qed.
 
-(* ... hence the denominator of the leaky-relu inverse, 1 + w.(u_hat*slope), is positive for slopes in (0,1] *)
-Lemma planar_denominator_pos s w u : Exists (fun x => x <> 0) w -> length u = length w -> 0 < s <= 1 ->
-  0 < planar_denom ROps s w u.
-Proof. intros Hw Hl Hs. rewrite planar_denom_eq. pose proof (planar_invertible w u Hw Hl). nra. Qed.
+Lemma planar_denom_eq slope s w u : planar_denom ROps slope s w u = 1 + s * planar_wu ROps (Some slope) w u.
+Proof. unfold planar_denom, planar_denom_with, planar_wu. rewrite !dot_eq. rops. now rewrite dot_scale. Qed.
+Lemma planar_denom_old_eq slope w u : planar_denom_old ROps slope w u = 1 + slope * planar_wu ROps None w u.
+Proof. unfold planar_denom_old, planar_denom_with, planar_wu. rewrite !dot_eq. rops. now rewrite dot_scale. Qed.
 
-(* The constructor accepts every slope > 0, but for a slope > 1 the constraint w.u_hat > -1 is NOT enough:
-   the denominator can be negative (the map x -> x + u_hat*leaky_relu(w.x+b) is then not injective). *)
-Lemma planar_slope_gt1_refuted : exists s w u,
-  planar_rejects ROps s = false /\ Exists (fun x => x <> 0) w /\ length u = length w /\ planar_denom ROps s w u < 0.
+(* ... hence both denominators of the leaky-relu inverse, 1 + w.(u_hat*1) and 1 + w.(u_hat*slope), are positive
+   for EVERY slope the constructor accepts (more generally for every branch slope 0 < s <= max(1, slope)) *)
+Lemma planar_denominator_pos slope s w u : Exists (fun x => x <> 0) w -> length u = length w -> 0 < slope ->
+  0 < s <= Rmax 1 slope -> 0 < planar_denom ROps slope s w u.
+Proof.
+  intros Hw Hl Hsl Hs. rewrite planar_denom_eq. pose proof (planar_wu_leaky slope w u Hw Hl Hsl) as H.
+  set (kk := Rmax 1 slope) in *. set (v := planar_wu ROps (Some slope) w u) in *.
+  assert (Hk : 1 <= kk) by apply Rmax_l.
+  assert (Hv : -1 < kk * v). { unfold Rdiv in H. replace (-1) with (kk * (-1 * / kk)) by (field; lra). apply Rmult_lt_compat_l; lra. }
+  destruct (Rle_dec 0 v) as [Hp|Hn]; [nra|]. assert (v < 0) by lra.
+  assert (s * v >= kk * v) by nra. lra.
+Qed.
+Lemma planar_leaky_both slope w u : Exists (fun x => x <> 0) w -> length u = length w -> 0 < slope ->
+  0 < planar_denom ROps slope 1 w u /\ 0 < planar_denom ROps slope slope w u.
+Proof.
+  intros Hw Hl Hs. split; apply planar_denominator_pos; try assumption.
+  - split; [lra|apply Rmax_l].
+  - split; [lra|apply Rmax_r].
+Qed.
+
+(* The formula before the fix (no division by max(1, slope)) violates this for a slope > 1 that the constructor
+   accepts: the denominator is negative, the map x -> x + u_hat*leaky_relu(w.x+b) is not injective. *)
+Lemma planar_slope_gt1_old_refuted : exists s w u,
+  planar_rejects ROps s = false /\ Exists (fun x => x <> 0) w /\ length u = length w /\ planar_denom_old ROps s w u < 0.
 Proof.
   exists 2, [1], [-5]. split; [apply planar_rejects_spec; lra|].
   assert (Hw : Exists (fun x => x <> 0) [1]) by (constructor; lra).
   split; [exact Hw|]. split; [reflexivity|].
-  rewrite planar_denom_eq, planar_wu_eq by (auto). rewrite dot_eq, planar_m_eq. unfold dotR. cbn [combine map rsum fst snd].
+  rewrite planar_denom_old_eq, planar_wu_eq by (auto). cbn [planar_mk]. rewrite dot_eq, planar_m_eq. unfold dotR. cbn [combine map rsum fst snd].
   replace (-5 * 1 + 0) with (-5) by ring.
   (* ln(1 + ln(1 + e^-5)) < ln(1 + e^-5) < e^-5 < 1/6, using 1 + x < exp x for x > 0 *)
   assert (Hln : forall x, 0 < x -> ln (1 + x) < x).
@@ -605,8 +641,14 @@ Proof.
 Qed.
 
 Lemma planar_all : forall w u, nonzero w -> length u = length w ->
-  -1 < planar_wu ROps w u /\ (forall s, 0 < s <= 1 -> 0 < planar_denom ROps s w u).
-Proof. intros w u Hw Hl. split; [now apply planar_invertible|]. intros s Hs. now apply planar_denominator_pos. Qed.
+  -1 < planar_wu ROps None w u /\
+  (forall slope, 0 < slope ->
+     - 1 / Rmax 1 slope < planar_wu ROps (Some slope) w u /\
+     0 < planar_denom ROps slope 1 w u /\ 0 < planar_denom ROps slope slope w u).
+Proof.
+  intros w u Hw Hl. split; [now apply planar_invertible_tanh|]. intros slope Hs.
+  split; [now apply planar_wu_leaky|now apply planar_leaky_both].
+Qed.
 
 Lemma mixture_all :
   (forall raw, raw <> [] ->
